@@ -237,6 +237,9 @@ func c11(tier string, args []string) int {
 		{"commitments-empty", dpf.StateDkgCommitsAwaitConfirmations, allButD},
 		{"commitments-other-point", dpf.StateDkgCommitsAwaitConfirmations, allButD},
 		{"response-with-complaint", dpf.StateDkgResponsesAwaitConfirmations, allButD},
+		// all the approvals a participant owes, and BEHIND them one more answer about the first
+		// dealer: a complaint, validly signed with the participant's long-term key
+		{"response-with-a-signed-complaint-behind-the-approvals", dpf.StateDkgResponsesAwaitConfirmations, allButD},
 		// the dealer tells the victim - in a commitments message addressed to the victim alone and
 		// posted before the broadcast one - the commitments of a second polynomial, and deals the
 		// victim a share of that polynomial: the deal contradicts the commitments it BROADCAST
@@ -264,7 +267,15 @@ func c11(tier string, args []string) int {
 					if dv.Kind == "deal-encrypted-to-third-party" && nt.n < 3 {
 						continue
 					}
-					if (strings.HasPrefix(dv.Kind, "commitments") && dv.Kind != "commitments-told-privately") || dv.Kind == "response-with-complaint" {
+					if dv.Kind == "response-with-a-signed-complaint-behind-the-approvals" && nt.n < 3 {
+						// with two participants each owes ONE answer and the machine's store of
+						// received answers holds (n-1)^2 = 1 per peer: the surplus one never
+						// reaches kyber. Every deal was consistent there, so the statement does not
+						// forbid the outcome (DESIGN §8); from n = 3 on the surplus answer is seen
+						// and refused, which is what is judged
+						continue
+					}
+					if (strings.HasPrefix(dv.Kind, "commitments") && dv.Kind != "commitments-told-privately") || strings.HasPrefix(dv.Kind, "response-with-") {
 						if V != (D+1)%nt.n {
 							continue // these deviations are not addressed to one victim
 						}
@@ -466,7 +477,20 @@ func runC11(r *kit.Run, n, t, D, V int, dv deviation, allOrders bool) {
 				_ = json.Unmarshal(res.ResultMsgs[0].Data, &req)
 				var rs []*dkgPedersen.Response
 				_ = json.Unmarshal(req.Response, &rs)
-				if len(rs) > 0 && rs[0].Response != nil {
+				if dv.Kind == "response-with-a-signed-complaint-behind-the-approvals" {
+					if len(rs) > 0 && rs[0].Response != nil {
+						suite := bls12381.NewBLS12381Suite(nil)
+						cp := *rs[0].Response
+						cp.Status = false
+						cp.Signature = nil
+						sig, serr := schnorr.Sign(suite, w.Airs[D].M.VerifSecKey(), cp.Hash(suite))
+						if serr != nil {
+							r.Infra("%s: signing the complaint: %v", label, serr)
+						}
+						cp.Signature = sig
+						rs = append(rs, &dkgPedersen.Response{Index: rs[0].Index, Response: &cp})
+					}
+				} else if len(rs) > 0 && rs[0].Response != nil {
 					rs[0].Response.Status = false
 				}
 				req.Response, _ = json.Marshal(rs)
